@@ -59,3 +59,24 @@ Example C19_example :
   wf v = true /\ (depth v <= 3)%nat /\ skip 3 T_STRUCT (encode v ++ [9; 9]) = Some [9; 9] /\
   unwrap (wrap (encode v) [109] 1 0 (-5)) = Some ([109], 1, -5, 0, encode v).
 Proof. vm_compute. repeat split; try reflexivity; lia. Qed.
+
+(* ---- generic Go values with a descriptor: ReadAnyWithDesc then WriteAnyWithDesc is the identity on well-formed values,
+   for both byte representations (int8 / uint8) and for string / binary (model/ThriftAny.v; Go maps as association lists,
+   the comparison with the implementation is modulo map order) ---- *)
+From DG Require Import ThriftAny ThriftAnyProofs.
+
+Theorem C19_read_any_write_any : forall u8 bin v, wf v = true -> write_any (read_any u8 bin v) = v.
+Proof. exact write_read_any. Qed.
+Print Assumptions C19_read_any_write_any.
+
+Theorem C19_read_any_write_any_decodes : forall u8 bin v r, wf v = true ->
+  decode (depth v) (type_of v) (encode (write_any (read_any u8 bin v)) ++ r) = Some (v, r).
+Proof. exact write_read_any_decodes. Qed.
+Print Assumptions C19_read_any_write_any_decodes.
+
+Example ex_any_v : tval :=
+  VStruct [ (1, VMap T_DOUBLE T_STRING [ (VDouble 4607182418800017408, VString [97]) ]);
+            (2, VMap T_BYTE T_BYTE [ (VByte (-1), VByte (-128)) ]);
+            (3, VSet T_I16 []) ].
+Example ex_any_wf : wf ex_any_v = true. Proof. vm_compute. reflexivity. Qed.
+Example ex_any_u8 : read_any true false (VByte (-1)) = GInt T_BYTE 255. Proof. vm_compute. reflexivity. Qed.
